@@ -170,82 +170,89 @@ Definition emit (e : event) : M unit := fun s => (Ok tt, (e :: fst s, snd s)).
 Definition push (p : sbk * node) : M unit := fun s => (Ok tt, (fst s, snd s ++ [p])).
 Definition lift {A} (r : res A) : M A := fun s => (r, s).
 
-Definition rbind {A B} (r : res A) (k : A -> res B) : res B :=
-  match r with Ok a => k a | Err e => Err e | Fuel => Fuel end.
+(* pure helpers fail only with a ConstructorError (EStructure): option *)
+Definition obind {A B} (r : option A) (k : A -> option B) : option B :=
+  match r with Some a => k a | None => None end.
+Definition lift_o {A} (r : option A) : M A :=
+  fun s => (match r with Some a => Ok a | None => Err EStructure end, s).
 
 (* ---- pure helpers on trees ---- *)
 
 (* SafeConstructor.construct_scalar l.173-178 + BaseConstructor.construct_scalar l.112-117 *)
-Fixpoint safe_scalar (n : node) : res str :=
+Fixpoint safe_scalar (n : node) : option str :=
   match n with
-  | Scalar _ v => Ok v
-  | Seq _ _ => Err EStructure
+  | Scalar _ v => Some v
+  | Seq _ _ => None
   | Map _ l =>
-      (fix go (l : list (node * node)) : res str :=
+      (fix go (l : list (node * node)) : option str :=
          match l with
-         | [] => Err EStructure
+         | [] => None
          | (k, v) :: r => if str_eqb (tag_of k) value_tag then safe_scalar v else go r
          end) l
   end.
 
-Definition base_scalar (n : node) : res str :=
-  match n with Scalar _ v => Ok v | _ => Err EStructure end.
+Definition base_scalar (n : node) : option str :=
+  match n with Scalar _ v => Some v | _ => None end.
 
 (* SafeConstructor.flatten_mapping l.180-215, on the pair list of a mapping node: result is
    `merge + kept`.  Nested mappings reached through merge keys are flattened themselves; the TAG
    of a merged mapping (and of a merged sequence and its items) is never looked at. *)
-Fixpoint flatten_node (n : node) : res (list (node * node)) :=
+Section FlatLoops.
+  Variable F : node -> option (list (node * node)).    (* flatten_mapping of a nested mapping node *)
+
+  (* l.190-199: the items of a merged sequence must be mappings *)
+  Fixpoint flat_subs (subs : list node) : option (list (list (node * node))) :=
+    match subs with
+    | [] => Some []
+    | sub :: rs =>
+        match sub with
+        | Map _ _ => obind (F sub) (fun x => obind (flat_subs rs) (fun xs => Some (x :: xs)))
+        | _ => None
+        end
+    end.
+
+  (* l.183-213: (merge, kept) *)
+  Fixpoint flat_go (l : list (node * node)) : option (list (node * node) * list (node * node)) :=
+    match l with
+    | [] => Some ([], [])
+    | (k, v) :: r =>
+        if str_eqb (tag_of k) merge_tag then
+          match v with
+          | Map _ _ =>
+              obind (F v) (fun m1 => obind (flat_go r) (fun mk => Some (m1 ++ fst mk, snd mk)))
+          | Seq _ subs =>
+              obind (flat_subs subs) (fun subm =>
+              obind (flat_go r) (fun mk => Some (List.concat (List.rev subm) ++ fst mk, snd mk)))
+          | Scalar _ _ => None
+          end
+        else if str_eqb (tag_of k) value_tag then
+          obind (flat_go r) (fun mk => Some (fst mk, (retag str_tag k, v) :: snd mk))
+        else
+          obind (flat_go r) (fun mk => Some (fst mk, (k, v) :: snd mk))
+    end.
+End FlatLoops.
+
+Fixpoint flatten_node (n : node) : option (list (node * node)) :=
   match n with
-  | Map _ l =>
-      rbind
-        ((fix go (l : list (node * node)) : res (list (node * node) * list (node * node)) :=
-            match l with
-            | [] => Ok ([], [])
-            | (k, v) :: r =>
-                if str_eqb (tag_of k) merge_tag then
-                  match v with
-                  | Map _ _ =>
-                      rbind (flatten_node v) (fun m1 =>
-                      rbind (go r) (fun mk => Ok (m1 ++ fst mk, snd mk)))
-                  | Seq _ subs =>
-                      rbind
-                        ((fix gs (subs : list node) : res (list (list (node * node))) :=
-                            match subs with
-                            | [] => Ok []
-                            | sub :: rs =>
-                                match sub with
-                                | Map _ _ =>
-                                    rbind (flatten_node sub) (fun x =>
-                                    rbind (gs rs) (fun xs => Ok (x :: xs)))
-                                | _ => Err EStructure
-                                end
-                            end) subs)
-                        (fun subm =>
-                         rbind (go r) (fun mk => Ok (List.concat (List.rev subm) ++ fst mk, snd mk)))
-                  | Scalar _ _ => Err EStructure
-                  end
-                else if str_eqb (tag_of k) value_tag then
-                  rbind (go r) (fun mk => Ok (fst mk, (retag str_tag k, v) :: snd mk))
-                else
-                  rbind (go r) (fun mk => Ok (fst mk, (k, v) :: snd mk))
-            end) l)
-        (fun mk => Ok (fst mk ++ snd mk))
-  | _ => Err EStructure
+  | Map _ l => obind (flat_go flatten_node l) (fun mk => Some (fst mk ++ snd mk))
+  | _ => None
   end.
 
 (* the loader's construct_mapping sees these pairs: flattened for a SafeConstructor, as written for
    a BaseConstructor; a non-mapping node is a ConstructorError *)
-Definition mapping_pairs (T : tables) (n : node) : res (list (node * node)) :=
+Definition mapping_pairs (T : tables) (n : node) : option (list (node * node)) :=
   match n with
-  | Map _ l => if t_safe_methods T then flatten_node n else Ok l
-  | _ => Err EStructure
+  | Map _ l => if t_safe_methods T then flatten_node n else Some l
+  | _ => None
   end.
+
+Definition hmax {A} (h : A -> nat) (l : list A) : nat := fold_right (fun c a => Nat.max (h c) a) 0 l.
 
 Fixpoint height (n : node) : nat :=
   match n with
   | Scalar _ _ => 0
-  | Seq _ l => S (fold_right (fun c a => Nat.max (height c) a) 0 l)
-  | Map _ l => S (fold_right (fun kv a => Nat.max (Nat.max (height (fst kv)) (height (snd kv))) a) 0 l)
+  | Seq _ l => S (hmax height l)
+  | Map _ l => S (hmax (fun kv => Nat.max (height (fst kv)) (height (snd kv))) l)
   end.
 
 Section Construct.
@@ -299,7 +306,7 @@ Section Construct.
         | _ => fail EStructure
         end
     | BMap | BSet =>
-        bind (lift (mapping_pairs T n)) (fun l => bind (map_children rec d l) (fun _ => ret tt))
+        bind (lift_o (mapping_pairs T n)) (fun l => bind (map_children rec d l) (fun _ => ret tt))
     | BPairs =>
         match n with
         | Seq _ l => pairs_children rec d l
@@ -325,14 +332,15 @@ Section Construct.
         | Scalar _ _ => call f
         | Seq _ l => bind (seq_children rec d' l) (fun _ => call f)
         | Map _ _ =>
-            bind (lift (mapping_pairs T n)) (fun l =>
+            bind (lift_o (mapping_pairs T n)) (fun l =>
             bind (map_children rec d' l) (fun allstr =>
             if allstr then call f else fail EOther))
         end
     | EBuiltin (BScalar c) =>
         bind (emit (EvB (BScalar c))) (fun _ =>
-        bind (lift (if t_safe_methods T then safe_scalar n else base_scalar n)) (fun v =>
-        if conv_ok c v then ret (if N.eqb c 6 then VStr else VHash) else fail EOther))
+        bind (lift_o (if t_safe_methods T then safe_scalar n else base_scalar n)) (fun v =>
+        if conv_ok c v then ret (if N.eqb c 6 then VStr else VHash)
+        else fail (if N.eqb c 4 then EStructure else EOther)))   (* l.291-305: binary wraps its errors *)
     | EBuiltin k =>
         (* generator method: l.99-106 *)
         bind (emit (EvB k)) (fun _ =>
@@ -342,7 +350,7 @@ Section Construct.
         | Scalar _ v => ret VStr
         | Seq _ l => bind (seq_children rec d l) (fun _ => ret VUnhash)
         | Map _ _ =>
-            bind (lift (mapping_pairs T n)) (fun l =>
+            bind (lift_o (mapping_pairs T n)) (fun l =>
             bind (map_children rec d l) (fun _ => ret VUnhash))
         end
     end.
@@ -416,3 +424,44 @@ Definition plugins_match (T : tables) (eps : list (str * N)) : bool :=
 
 Definition is_call (e : event) : bool := match e with EvB _ => false | _ => true end.
 Definition calls (l : list event) : list event := filter is_call l.
+
+(* ---- which nodes of a document get dispatched (were construct_object is called on them),
+        as long as no error stops the construction ---- *)
+Definition kv_nodes (l : list (node * node)) : list node := flat_map (fun kv => [fst kv; snd kv]) l.
+
+Definition pairs_nodes (l : list node) : list node :=
+  flat_map (fun c => match c with Map _ [(k, v)] => [k; v] | _ => [] end) l.
+
+Definition mapping_nodes (T : tables) (n : node) : list node :=
+  match mapping_pairs T n with Some l => kv_nodes l | None => [] end.
+
+Definition tail_children (T : tables) (k : sbk) (n : node) : list node :=
+  match k with
+  | BScalar _ => []
+  | BSeq => match n with Seq _ l => l | _ => [] end
+  | BMap | BSet => mapping_nodes T n
+  | BPairs => match n with Seq _ l => pairs_nodes l | _ => [] end
+  end.
+
+Definition children_of (T : tables) (n : node) : list node :=
+  match dispatch T (tag_of n) with
+  | EUndefined | EUnsafe _ => []
+  | EBuiltin k => tail_children T k n
+  | EPlugin _ _ | EDefault =>
+      match n with
+      | Scalar _ _ => []
+      | Seq _ l => l
+      | Map _ _ => mapping_nodes T n
+      end
+  end.
+
+Inductive visits (T : tables) : node -> node -> Prop :=
+| visits_self : forall n, visits T n n
+| visits_child : forall n c m, In c (children_of T n) -> visits T c m -> visits T n m.
+
+(* plain containment, any position *)
+Inductive subnode : node -> node -> Prop :=
+| sub_self : forall n, subnode n n
+| sub_item : forall m t l c, In c l -> subnode m c -> subnode m (Seq t l)
+| sub_key : forall m t l k v, In (k, v) l -> subnode m k -> subnode m (Map t l)
+| sub_value : forall m t l k v, In (k, v) l -> subnode m v -> subnode m (Map t l).
